@@ -297,6 +297,9 @@ func (w *world) snapshot() ([]nodeJ, string, error) {
 				}
 				n.Cid = w.decompose(b)
 				n.Vcid = n.Cid
+				if strings.Contains(n.Cid, "+") {
+					w.reg.get(n.Cid) // make the concatenation a known source for later reads
+				}
 				h.Write([]byte(n.Cid))
 			}
 			nodes = append(nodes, n)
